@@ -282,6 +282,8 @@ class Documentable:
         old_name = self.name
         if self.definingMod is None:
             self.definingMod = self.parentMod
+        if isinstance(self, Module) and self._definingPackage is None and isinstance(old_parent, Package):
+            self._definingPackage = old_parent
         self.parent = self.parentMod = new_parent
         self.name = new_name
         del old_parent.contents[old_name]
@@ -497,6 +499,11 @@ class Module(CanContainImportsDocumentable):
         """
 
         self._docformat: Optional[str] = None
+        self._definingPackage: Optional[Package] = None
+        """
+        The package this module was moved out of by a re-export, the one it is written in: 
+        that's where it inherits the C{__docformat__} from. C{None} for a module that lives where it is defined.
+        """
 
     def _localNameToFullName(self, name: str) -> str:
         if name in self.contents:
@@ -523,8 +530,9 @@ class Module(CanContainImportsDocumentable):
         """
         if self._docformat:
             return self._docformat
-        elif isinstance(self.parent, Package):
-            return self.parent.docformat
+        parent = self._definingPackage or self.parent
+        if isinstance(parent, Package):
+            return parent.docformat
         return None
     
     @docformat.setter
